@@ -3,6 +3,7 @@ C15 — dtml-var options apply a fixed, documented value pipeline.
 Model: DTML/VarPipe.lean.
 -/
 import DTML.VarPipe
+import DTML.GenVar
 set_option linter.unusedVariables false
 namespace DTML.Props.C15
 open DTML.Quote DTML.VarPipe
@@ -285,6 +286,28 @@ theorem pipeline_stages (x : Ext) (sp : Spec) (v v1 : Val) (s : Text) (t : Bool)
   simp only [afterFmt]
   rw [hc]
   simp only [afterCfmt, applyMods]
+
+/-! #### what the source says now (regenerated from `Var.render` on every run: harness/trans_var.py) -/
+
+/-- **The stages of `Var.render`, in the order of the source**: fetch the value (`missing` handled there), the `null`
+test, `fmt=`, the C-style format, the loop over the modifiers, `size` / `etc`, the final quoting of a still-tainted
+value — the order `renderFull` implements and `pipeline_stages` states; and the null test is "false but not 0". -/
+theorem gen_var_render_stages :
+    GenVar.varRenderStages = ["fetch", "null", "fmt", "cformat", "modifiers", "size", "taint-quote", "return"] ∧
+    GenVar.varNullTest = "'null' in args and (not val) and (val != 0)" := by decide
+
+/-- **The truncation of the model is the truncation of the source**: the block `if len(val) > size: …` translated
+statement by statement (`val[:size]`, `rfind(' ')`, `l_ > size / 2`, `val[:l_ + 1]`, `etc` or `'...'`) computes
+`VarPipe.truncate`, about which `truncate_spec` is stated. -/
+theorem gen_truncate_is_model (size : Int) (etc : Option Text) (s : Text) :
+    GenVar.truncGen size etc.isSome (etc.getD []) s = (truncate size (etc.getD "...".toList) s false).1 := by
+  unfold GenVar.truncGen truncate
+  by_cases h : (s.length : Int) > size
+  · simp only [h, if_true]
+    cases etc with
+    | none => by_cases h2 : 2 * rfindSpace (sliceTo s size) > size <;> simp [h2]
+    | some e => by_cases h2 : 2 * rfindSpace (sliceTo s size) > size <;> simp [h2]
+  · simp [h]
 
 /-! #### url_unquote as the inverse of url_quote -/
 
